@@ -135,3 +135,79 @@ def replay_sampling(pyhf, backend, precision, chunk, seed):
                 break
         out["nontrivial"] += 1
     return out
+
+
+def replay_aux_moments(pyhf, backend, precision, chunk, seed):
+    """chunk: evaluated states of MC_HFModel.  Pseudo-data are drawn from the real model at the state's parameter point; every
+    auxiliary component must be distributed as the constraint term the specification lists for it (DefTerms.cons): Normal(theta, var)
+    -> mean theta, variance var; Poisson(theta tau) -> mean = variance = theta tau; main counts are Poisson(rate)."""
+    import random
+    import numpy as np
+    import hfreplay
+    import names
+    from common import frac
+    out = {"n": 0, "nontrivial": 0, "findings": [], "samples": 0, "aux_components": 0}
+    tl = pyhf.tensorlib
+    rng = random.Random(seed)
+    n = 3000
+    for ci, line in enumerate(chunk):
+        case = json.loads(line)
+        case["_chan_nbins"] = [(cr["name"], len(cr["rates"])) for cr in case["chan_rates"]]
+        cons = case["terms"]["cons"]
+        if not cons or any(frac(t["lam"]) <= 0 for t in case["terms"]["main"]):
+            continue
+        try:
+            spec, poi = hfreplay.concrete_spec(case, rng)
+            model = pyhf.Model(spec, poi_name=poi, **hfreplay.model_kwargs(case))
+        except Exception:  # noqa: BLE001   (C20/C12 decide refusals)
+            continue
+        cfg = model.config
+        pars = hfreplay.assemble_pars(model, case["theta"])
+        np.random.seed(seed * 131 + ci)
+        try:
+            import torch
+            torch.manual_seed(seed * 131 + ci)
+        except Exception:  # noqa: BLE001
+            pass
+        try:
+            import tensorflow as tf
+            tf.random.set_seed(seed * 131 + ci)
+        except Exception:  # noqa: BLE001
+            pass
+        try:
+            smp = np.asarray(tl.tolist(model.make_pdf(tl.astensor(pars)).sample((n,))), dtype=float)
+        except Exception as e:  # noqa: BLE001
+            out["findings"].append(("C14", f"sampling raised {type(e).__name__}: {e}", {"case": {k: case[k] for k in ("spec", "setting", "theta")}}, ["sampling", "exception"]))
+            continue
+        out["n"] += 1
+        out["samples"] += n
+        det = {"case": {k: case[k] for k in ("spec", "setting", "theta")}, "backend": backend}
+        if smp.shape != (n, cfg.nmaindata + cfg.nauxdata):
+            out["findings"].append(("C14", f"sampled data has shape {smp.shape}, requested ({n}, {cfg.nmaindata + cfg.nauxdata})", det, ["sampling", "shape"]))
+            continue
+        m, va = smp.mean(axis=0), smp.var(axis=0)
+        # the specification lists the constraint terms in ITS auxiliary order (by parameter name); the model reports its own order
+        by_name, pos = {}, 0
+        for a in case["aux_data"]:
+            by_name[names.PARAMS[a["name"]]] = cons[pos:pos + len(a["vals"])]
+            pos += len(a["vals"])
+        terms = [t for nme in cfg.auxdata_order for t in by_name[nme]]
+        for j, t in enumerate(terms):
+            i = cfg.nmaindata + j
+            if t["k"] == "norm":
+                mu_, var_ = float(frac(t["mu"])), float(frac(t["var"]))
+                kind = "Normal"
+                se_m, se_v = math.sqrt(var_ / n), var_ * math.sqrt(2.0 / n)
+            else:
+                mu_ = var_ = float(frac(t["lam"]))
+                kind = "Poisson"
+                se_m, se_v = math.sqrt(var_ / n), var_ * math.sqrt(2.0 / n + 1.0 / (n * max(var_, 1e-9)))
+            out["aux_components"] += 1
+            if abs(m[i] - mu_) > 6.5 * se_m + 1e-12 or abs(va[i] - var_) > 6.5 * se_v + 1e-12:
+                out["findings"].append(("C14", f"auxiliary data are not distributed according to their constraint term ({kind})",
+                                        dict(det, aux=j, parameter=cfg.auxdata_order, sampled_mean=float(m[i]), sampled_var=float(va[i]), term_mean=mu_, term_var=var_),
+                                        ["sampling", "auxdist", kind]))
+                break
+        if cons:
+            out["nontrivial"] += 1
+    return out
